@@ -111,6 +111,16 @@ pub fn scenarios(property: &str, tier: Tier) -> Vec<Scenario> {
 			..base.clone()
 		},
 		Scenario {
+			// a commit whose commit-log write fails, between two that succeed: its sequence
+			// numbers are used up, nothing of it is ever visible, the others are unaffected
+			name: "c05-wal-failure-between-commits",
+			property: "C05",
+			bounds: (2, 2),
+			committers: vec![vec!["a0", "b0"], vec!["a1", "b1", "c1"], vec!["a2"]],
+			fail: Some(("commit.wal", 1)),
+			..base.clone()
+		},
+		Scenario {
 			// the first batch fits the room that is left, the second does not: its rotation (and the
 			// background flush of the old memtable) must wait for the first batch's insert
 			name: "c05-rotation-overtakes-insert",
@@ -772,9 +782,17 @@ fn run_schedule(sc: &Scenario, prefix: &[usize]) -> Result<Outcome, String> {
 						return Ok(out);
 					}
 				}
-				// the horizon equals exactly the entries of the visible transactions
+				// the horizon equals exactly the entries of the visible transactions (a commit whose
+				// log write failed has used up its sequence numbers: the horizon may have passed them)
 				let expect_v = su.prefill_entries as u64 + s.iter().map(|i| sizes[*i] as u64).sum::<u64>();
-				if p.visible_seq != expect_v {
+				let gap = sc.fail.map(|f| sizes[f.1] as u64).unwrap_or(0);
+				if let Some(f) = sc.fail {
+					if s.contains(&f.1) {
+						out.failure = Some(("failed-commit-visible".into(), format!("probe at point {} ({}): the commit whose log write failed is visible: {:?}", p.step, p.label, p.view)));
+						return Ok(out);
+					}
+				}
+				if p.visible_seq != expect_v && p.visible_seq != expect_v + gap {
 					out.failure = Some((
 						"horizon-mismatch".into(),
 						format!("probe at point {} ({}): horizon {} but the visible transactions {:?} account for {} entries (view {:?})", p.step, p.label, p.visible_seq, s, expect_v, p.view),
@@ -796,9 +814,17 @@ fn run_schedule(sc: &Scenario, prefix: &[usize]) -> Result<Outcome, String> {
 				last_s = s;
 			}
 			for (i, r) in results.iter().take(n).enumerate() {
-				if let Err(e) = r {
-					out.failure = Some(("unexpected-commit-error".into(), format!("committer {i}: {e}")));
-					return Ok(out);
+				let injected = sc.fail.map(|f| f.1) == Some(i);
+				match r {
+					Err(e) if !injected => {
+						out.failure = Some(("unexpected-commit-error".into(), format!("committer {i}: {e}")));
+						return Ok(out);
+					}
+					Ok(()) if injected => {
+						out.failure = Some(("failed-write-acknowledged".into(), format!("committer {i}: commit returned Ok although its log write failed")));
+						return Ok(out);
+					}
+					_ => {}
 				}
 			}
 			h.push_str(&format!("{}", probes.iter().map(|p| p.visible_seq.to_string()).collect::<Vec<_>>().join(",")));
